@@ -53,7 +53,8 @@ def define(M):
     M("C15", "no_reverse_flipped", UT,
       "        reverseFlipped=reverseFlipped,", "        reverseFlipped=False,")
     M("C15", "decompose_not_nested", UT,
-      "        decomposeNested=decomposeNested,", "        decomposeNested=False,\n        include=set(c.baseGlyph for c in glyph.components),")
+      "        include=include,\n        decomposeNested=decomposeNested,\n",
+      "        include={c.baseGlyph for c in glyph.components},\n        decomposeNested=False,\n")
     # only scale, not shear / rotation, counts as 'transformed'
     M("C15", "dtc_diagonal_only", DT,
       "    return component.transformation[:4] != IDENTITY_2x2",
